@@ -538,6 +538,13 @@ func (e *Env) call(x *ast.CallExpr, hint types.Type) Term {
 			panic(unsupported("errIs: second argument must name a sentinel variable"))
 		}
 		return Term{w.errIs(v.S, e.pkg.Name()+"."+id.Name), "Bool", boolT}
+	case "errOnly": // errOnly(e, S): e is non-nil, errors.Is(e, S), and e is in no other base sentinel's class
+		v := e.tr(arg(0), nil)
+		id, ok := arg(1).(*ast.Ident)
+		if !ok {
+			panic(unsupported("errOnly: second argument must name a sentinel variable"))
+		}
+		return Term{w.errOnly(v.S, e.pkg.Name()+"."+id.Name), "Bool", boolT}
 	case "errClass":
 		v := e.tr(arg(0), nil)
 		return Term{"(errclass (i-ref " + v.S + "))", "(_ BitVec 32)", types.Typ[types.Uint32]}
@@ -739,6 +746,18 @@ func (w *World) refOf(v Term) string {
 func (w *World) errIs(e string, sentinel string) string {
 	bit := w.reg.sentinelBit(sentinel)
 	return fmt.Sprintf("(and (not (= (i-tag %s) 0)) (= ((_ extract %d %d) (errclass (i-ref %s))) #b1))", e, bit, bit, e)
+}
+
+func (w *World) errOnly(e string, sentinel string) string {
+	parts := []string{w.errIs(e, sentinel)}
+	for _, b := range w.baseSentinels {
+		if b == sentinel || strings.SplitN(b, ".", 2)[0] != strings.SplitN(sentinel, ".", 2)[0] {
+			continue
+		}
+		bit := w.reg.sentinelBit(b)
+		parts = append(parts, fmt.Sprintf("(= ((_ extract %d %d) (errclass (i-ref %s))) #b0)", bit, bit, e))
+	}
+	return and(parts...)
 }
 
 // makeIface wraps a concrete value into an interface value.
